@@ -139,6 +139,14 @@ static void collect(fsg_search_t *fs)
     }
 }
 
+/* the DIRECT model-definition lookup of a triphone's senone sequence, as harness/h_c02.c takes it for the flat network of C02:
+ * bin_mdef_phone_id_nearest + bin_mdef_pid2ssid, NOT the dict2pid tables */
+static int direct_ssid(bin_mdef_t *m, int ci, int lc, int rc, int wpos)
+{
+    int pid = bin_mdef_phone_id_nearest(m, ci, lc, rc, (word_posn_t)wpos);
+    return (int)bin_mdef_pid2ssid(m, pid);
+}
+
 /* what psubtree_add_trans / fsg_lextree_lc_rc read: the words of the FSG (pronunciation, filler flags), and the
  * senone-sequence lookups through the very macros/functions the lextree code uses */
 static void dump_build_inputs(fsg_search_t *fs)
@@ -168,6 +176,9 @@ static void dump_build_inputs(fsg_search_t *fs)
                 printf("LR %d", ci);
                 for (c = 0; c < nci; c++) printf(" %d", (int)dict2pid_lrdiph_rc(d2p, ci, c, sil));
                 printf("\n");
+                printf("DR %d", ci);
+                for (c = 0; c < nci; c++) printf(" %d", direct_ssid(m, ci, c, sil, WORD_POSN_SINGLE));
+                printf("\n");
             }
         } else if (n > 1) {
             int ci = dict_pron(dict, dw, 0), rc = dict_pron(dict, dw, 1);
@@ -177,8 +188,14 @@ static void dump_build_inputs(fsg_search_t *fs)
                 printf("LD %d %d", ci, rc);
                 for (c = 0; c < nci; c++) printf(" %d", (int)dict2pid_ldiph_lc(d2p, ci, rc, c));
                 printf("\n");
+                printf("DD %d %d", ci, rc);
+                for (c = 0; c < nci; c++) printf(" %d", direct_ssid(m, ci, c, rc, WORD_POSN_BEGIN));
+                printf("\n");
             }
             for (k = 1; k < n - 1; k++) printf("LN %d %d %d\n", dw, k, (int)dict2pid_internal(d2p, dw, k));
+            for (k = 1; k < n - 1; k++)
+                printf("DN %d %d %d %d\n", (int)dict_pron(dict, dw, k), (int)dict_pron(dict, dw, k - 1), (int)dict_pron(dict, dw, k + 1),
+                       direct_ssid(m, dict_pron(dict, dw, k), dict_pron(dict, dw, k - 1), dict_pron(dict, dw, k + 1), WORD_POSN_INTERNAL));
             if (!seen_rs[fci * nci + flc]) {
                 xwdssid_t *rs = dict2pid_rssid(d2p, fci, flc);
                 seen_rs[fci * nci + flc] = 1;
@@ -187,6 +204,9 @@ static void dump_build_inputs(fsg_search_t *fs)
                     for (c = 0; c < nci; c++) printf(" %d", (int)rs->cimap[c]);
                     for (c = 0; c < rs->n_ssid; c++) printf(" %d", (int)rs->ssid[c]);
                 }
+                printf("\n");
+                printf("DS %d %d", fci, flc);
+                for (c = 0; c < nci; c++) printf(" %d", direct_ssid(m, fci, flc, c, WORD_POSN_END));
                 printf("\n");
             }
         }
